@@ -176,6 +176,7 @@ type Process struct {
 	eventConsumersLock sync.RWMutex
 	eventConsumers     []event.IConsumer
 	subTracer          tracing.ITracer
+	monitorOnce        sync.Once
 }
 
 func (p *Process) Id() id.Id { return p.id }
@@ -609,11 +610,18 @@ func (p *Process) StartWith(ctx context.Context, element schema.FlowNodeInterfac
 		// triggered: it learns that the start event fired from the trace
 		// stream, and a trace emitted before the subscription is lost, in
 		// which case completion is never reported.
-		sender := p.tracer.RegisterSender()
-		monitor := p.ceaseFlowMonitor(p.subTracer)
+		//
+		// There is one monitor per instance, however many start events are
+		// triggered: it waits for all of them. (A second monitor would block
+		// on the completion lock held by the first one, inside StartWith,
+		// with an unread trace subscription that stalls the tracer.)
+		p.monitorOnce.Do(func() {
+			sender := p.tracer.RegisterSender()
+			monitor := p.ceaseFlowMonitor(p.subTracer)
+			go monitor(ctx, sender)
+		})
 		eventNode.Trigger(ctx)
 		verifhook.Point("process.startwith")
-		go monitor(ctx, sender)
 		p.tracer.Send(InstantiationTrace{InstanceId: p.id})
 
 	case *throwEvent:
